@@ -94,7 +94,9 @@ def decide(ob):
                 if ob.get("is_twin"):
                     rec["reproduced"] = rr.get("result") == 1
                 else:
-                    rec["reproduced"] = (rr.get("exception") is not None) or (rr.get("result") != 1 and "result" in rr)
+                    # an exception counts as a reproduction when the code under analysis raised it; one raised by the harness's own
+                    # lines (a stub that no longer fits a refactored module, an internal assertion) is a harness error, never a verdict
+                    rec["reproduced"] = (rr.get("exception") is not None and rr.get("origin") != "harness") or (rr.get("result") != 1 and "result" in rr)
             else:
                 rec["replay"] = {"error": "could not parse counterexample"}
                 rec["reproduced"] = False
